@@ -40,6 +40,7 @@ MCInit == \/ \E s \in Strs : InitWith([op |-> "pct", in |-> s])
                 b \in {"http://verif.test", "http://verif.test/api/v1", "http://verif.test/", "https://verif.test:8443/a.b/c/",
                         "http://verif.test/pkg.Other"} :
                 InitWith([op |-> "spec_reuse", proto |-> p, used |-> u, base |-> b])
+          \/ \E p \in {"connect", "grpc", "grpcweb"} : InitWith([op |-> "client_init_fail", proto |-> p])
           \/ \E c \in Codes : InitWith([op |-> "code", c |-> c])
           \/ \E d \in Durs : InitWith([op |-> "timeout", d |-> d])
 MCSpec == MCInit /\ [][Next]_vars
